@@ -272,6 +272,10 @@ struct FpOnly<T, V, true>
           continue;
         }
         long double w = 1.0L / a[i];
+        if (std::fabs(w) < (long double)std::numeric_limits<T>::min()) {  // subnormal quotient: no relative bound applies
+          c.skip();
+          continue;
+        }
         c.resx(i, close<T>(comp(r, i), w, w, 4), comp(r, i), w);
       }
     }
@@ -291,6 +295,10 @@ struct FpOnly<T, V, true>
         long double x = std::fabs((long double)a[i]) < mn ? mn : (long double)a[i];
         long double w = 1.0L / x;
         T g = comp(r, i);
+        if (std::fabs(w) < mn) {
+          c.skip();
+          continue;
+        }
         if (std::fabs((long double)a[i]) < mn)  // rcp_safe of (+-)0 may have either sign
           c.resx(i, close<T>(std::fabs(g), w, w, 4), g, w);
         else
